@@ -212,6 +212,19 @@ def gen_scenario(r: random.Random, task: Optional[str] = None, n_frames: Optiona
                 e["score"] = round(e["score"] - 1e-6, 6)
             seen_scores.add(e["score"])
 
+    if r.random() < 0.15:
+        # two estimates of different frames whose confidences are distinct but adjacent floating-point numbers: still a
+        # strict order
+        with_ests = [fr for fr in frames if fr.ests]
+        if len(with_ests) >= 2:
+            fa, fb = r.sample(with_ests, 2)
+            ea, eb = r.choice(fa.ests), r.choice(fb.ests)
+            cand = float(np.nextafter(ea["score"], 2.0))
+            if cand not in seen_scores:
+                seen_scores.discard(eb["score"])
+                eb["score"] = cand
+                seen_scores.add(cand)
+
     # ---- evaluation config -------------------------------------------------------------
     tl_pool = ["car", "bicycle", "pedestrian"] if merge else ["car", "truck", "bus", "bicycle", "motorbike", "pedestrian"]
     _target_default = r.sample(tl_pool, r.randint(1, len(tl_pool)))
